@@ -2,7 +2,7 @@
 """tools/seedimport.py <ID> <name> <needs...>: copies a confirmed seeded change into /verif/seeded/<name>/ with meta.json"""
 import json, os, shutil, subprocess, sys
 sid, name = sys.argv[1], sys.argv[2]
-src = "/tmp/seed/%s.out" % sid
+src = "%s/%s.out" % (os.environ.get("SEEDBASE", "/tmp/seed"), sid)
 dst = "/verif/seeded/%s" % name
 os.makedirs(dst, exist_ok=True)
 for f in os.listdir(src):
